@@ -4,10 +4,14 @@ import re
 
 from ..core import AnalysisError
 from .shared_py import inn
+from . import shared_py as P
 from ..cxxlib import nows, stmts_of, if_parts, int_value
-from ..pyfront import unparse
+from ..pyfront import norm_key, unparse
 from .. import templ
 from . import shared_cxx as S
+
+
+from ..pyfront import ws  # noqa: E402,F401  (whitespace-collapsed, rename/normal-form tolerant `in`)
 
 # CPython bytes.__repr__ (Objects/bytesobject.c, PyBytes_Repr) for single-quoted output
 PY_ESCAPES = {9: '\\t', 10: '\\n', 13: '\\r', 92: '\\\\'}
@@ -236,28 +240,33 @@ def python_side(ctx, L):
     consts = [n.value for n in ast.walk(f.node) if isinstance(n, ast.Constant) and isinstance(n.value, str)]
     L.check(inn("single_indent_level = ' ' * 2", src), 'C18.python-format', 'field_to_string|indent', f.site(),
             'indentation is two spaces per level', '')
-    chain = [s for s in f.node.body if isinstance(s, ast.If)]
-    if len(chain) != 1:
-        raise AnalysisError('field_to_string: type ladder not found')
-    br = templ.if_chain(chain[0])
-    tests = [unparse(b.guards[-1][0]) if b.guards[-1][1] else 'else' for b in br]
-    want_tests = ['issubclass(type_, base_array)', 'issubclass(type_, (struct, union))', 'issubclass(type_, bytes)',
-                  'issubclass(type_, enum)', 'else']
-    L.check(tests == want_tests, 'C18.python-format', 'field_to_string|ladder', f.site(chain[0]),
-            'type ladder must be array, composite, bytes, enum, scalar (in this order: an enum is an int, bytes is not '
-            'an array)', str(tests))
-    if tests == want_tests:
-        bodies = [unparse(b.body) for b in br]
-        L.check(bodies[0] == "return ''.join((field_to_string(name, type_._TYPE, elem) for elem in value))",
-                'C18.python-format', 'field_to_string|array', f.site(), 'array elements repeat under the field name', bodies[0])
-        L.check(bodies[1] == "return '%s {\\n%s}\\n' % (name, indent(str(value)))", 'C18.python-format',
-                'field_to_string|composite', f.site(), 'composite renders as `name {\\n<indented>}\\n`', bodies[1])
-        L.check(bodies[2] == "return '%s: %s\\n' % (name, repr_bytes(value))", 'C18.python-format',
-                'field_to_string|bytes', f.site(), 'bytes render through repr_bytes', bodies[2])
-        L.check(bodies[3] == "return '%s: %s\\n' % (name, type_._int_to_name[value])", 'C18.python-format',
-                'field_to_string|enum', f.site(), 'enumerators render by name', bodies[3])
-        L.check(bodies[4] == "return '%s: %s\\n' % (name, value)", 'C18.python-format', 'field_to_string|scalar',
-                f.site(), 'scalars render as `name: value\\n`', bodies[4])
+    # every way out of field_to_string, classified by what is known about the type on that path (not by the shape of the ladder)
+    FT = ['name', 'type_', 'value']
+    tests = {'array': 'issubclass(type_, base_array)', 'composite': 'issubclass(type_, (struct, union))', 'bytes': 'issubclass(type_, bytes)',
+             'enum': 'issubclass(type_, enum)'}
+    bodies = {'array': "''.join((field_to_string(name, type_._TYPE, elem) for elem in value))",
+              'composite': "'%s {\\n%s}\\n' % (name, indent(str(value)))",
+              'bytes': "'%s: %s\\n' % (name, repr_bytes(value))",
+              'enum': "'%s: %s\\n' % (name, type_._int_to_name[value])",
+              'scalar': "'%s: %s\\n' % (name, value)"}
+    why = {'array': 'array elements repeat under the field name', 'composite': 'composite renders as `name {\\n<indented>}\\n`',
+           'bytes': 'bytes render through repr_bytes', 'enum': 'enumerators render by name', 'scalar': 'scalars render as `name: value\\n`'}
+    rets = [r for r in f.walk() if isinstance(r, ast.Return)]
+    seen = {}
+    for r in rets:
+        known = P.facts(f, r)
+        cls = [k for k, t in tests.items() if P.expected_facts(t, True, FT, m) <= known]
+        if not cls and all(P.expected_facts(t, False, FT, m) <= known for t in tests.values()):
+            cls = ['scalar']
+        key = cls[0] if len(cls) == 1 else 'unclassified'
+        seen.setdefault(key, []).append(r)
+        ok = len(cls) == 1 and P.sem_is(f, r.value, bodies[cls[0]], FT)
+        L.check(ok, 'C18.python-format', 'field_to_string|%s|%s' % (key, norm_key(f, r)), f.site(r),
+                ('the rendering reached for a %s field must be `%s` (%s)' % (key, bodies.get(key), why.get(key))) if len(cls) == 1 else
+                'a rendering is produced on a path where the kind of the field is not decided (array / composite / bytes / enum, else scalar): '
+                'known there %s' % sorted(known), ws(unparse(r)))
+    L.check(sorted(seen) == sorted(bodies), 'C18.python-format', 'field_to_string|ladder', f.site(),
+            'every kind of field (array, composite, bytes, enum, scalar) has exactly its own rendering; found %s' % sorted(seen), '')
     ind = m.func('field_to_string.indent')
     L.check(unparse(ind.node.body[0]) == "return '\\n'.join((x and single_indent_level + x or '' for x in text.split('\\n')))",
             'C18.python-format', 'field_to_string.indent', ind.site(), 'every non-empty nested line gets one more level', '')
@@ -298,7 +307,7 @@ def generator_print(ctx, L):
         em = br[3].emits()
         L.check(len(em) == 1 and em[0].text == 'do_print(out, indent, "{0}", x.{0});\n' and em[0].args == ['m.name'],
                 'C18.omission-rules', 'generate_struct_print|plain', f.site(), 'plain fields print under their own name', str(em))
-        arr = unparse(br[0].body)
+        arr = ws(unparse(br[0].body))
         L.check(inn("if m.type_name == 'byte':\n    inner = inner.join(('std::make_pair(', ')'))", arr),
                 'C18.omission-rules', 'generate_struct_print|bytes', f.site(),
                 'exactly byte arrays are wrapped in std::make_pair (printed as a quoted string)', arr[:200])
